@@ -143,4 +143,38 @@ Proof.
   replace (0 <? f_count f) with true by lia. unfold ret at 1. rewrite Hr. reflexivity.
 Qed.
 
+(* ---------------------------------------------------------------- the high watermark of a fetch response *)
+(* for every fetch version the Batch gets the high_watermark field (not the last stable offset) *)
+Lemma hwm_of_header_any v h : hwm_of_header v h = fh_hwm h.
+Proof. unfold hwm_of_header. destruct (v <? 4); [reflexivity|]. destruct (v <? 10); reflexivity. Qed.
+Lemma hwm_of_header_v5 h : hwm_of_header 5 h = fh_hwm h.
+Proof. apply hwm_of_header_any. Qed.
+
+(* so a response with an open transaction (last stable offset below the high watermark) read at
+   the last stable offset is decoded like any other: the other header fields do not matter *)
+Theorem fetch_close_hdr_hwm fuel v offset h i remain late :
+  fetch_close_hdr decomp fuel v offset h i remain late = fetch_close decomp fuel offset (fh_hwm h) i remain late.
+Proof. unfold fetch_close_hdr. rewrite hwm_of_header_any. reflexivity. Qed.
+
+(* ---------------------------------------------------------------- Batch.Read with a short buffer *)
+(* a read whose buffer is too short is a no-op on the position: the batch ends with
+   io.ErrShortBuffer at the offset it had before the call, and Close hands that offset to the Conn *)
+Theorem short_read_keeps_position fuel b g b' n t :
+  batch_read1 decomp fuel b = BMsg g b' -> n < len (g_val g) ->
+  exists bs, batch_reads decomp fuel b (n :: t) = ([RShort], bs, true)
+             /\ b_off bs = b_off b /\ fst (fst (reads_close bs true)) = b_off b.
+Proof.
+  intros Hr Hn. cbn [batch_reads]. rewrite Hr. replace (n <? len (g_val g)) with true by lia.
+  eexists. split; [reflexivity|]. unfold set_b. cbn [b_off]. split; [reflexivity|].
+  unfold reads_close. cbn [b_msgs b_off]. destruct (match b_msgs b' with Some m => msr_discard m | None => None end); reflexivity.
+Qed.
+
+(* a read whose buffer is long enough hands out the value and goes on from the batch
+   Batch.ReadMessage would have left *)
+Theorem long_read_delivers fuel b g b' n t :
+  batch_read1 decomp fuel b = BMsg g b' -> len (g_val g) <= n ->
+  batch_reads decomp fuel b (n :: t)
+  = (let '(rs, b2, sh) := batch_reads decomp fuel b' t in (RVal (g_val g) :: rs, b2, sh)).
+Proof. intros Hr Hn. cbn [batch_reads]. rewrite Hr. replace (n <? len (g_val g)) with false by lia. reflexivity. Qed.
+
 End Close.
